@@ -198,6 +198,7 @@ func init() {
 	}
 
 	initBtreeModels()
+	initMemdbModels()
 }
 
 // ---------- github.com/google/btree, as used by ChangeStore: a finite map from the ordering key to the item ----------
